@@ -6,6 +6,7 @@ use crate::xrun::{run_binary, run_inproc, XCase};
 use crate::Ctx;
 
 fn word(rng: &mut Rng) -> Vec<u8> {
+    if rng.chance(1, 25) { return rng.pick(&["caf\u{e0}", "\u{445}yz", "a\u{a0}b", "\u{85}", "x\u{b}y"]).as_bytes().to_vec(); }
     let len = match rng.below(10) {
         0 => rng.range(20, 60),
         1 => rng.range(8, 20),
